@@ -243,6 +243,8 @@ class DictModel:
     def copy(self):
         m = DictModel(dict(self.entries), self.open, self.make_val, self.tag)
         m.origin = getattr(self, "origin", None)
+        if hasattr(self, "sym_reads"):
+            m.sym_reads = dict(self.sym_reads)
         if hasattr(self, "sym_entries"):
             m.sym_entries = list(self.sym_entries)
         return m
@@ -1313,7 +1315,16 @@ class Engine:
         # symbolic key: present iff equals a present concrete key (closed dict) / unknown (open)
         if not m.open:
             return z3.Or([z3.And(p, sym.t == z3.StringVal(k)) for k, (p, _) in m.entries.items()]) if m.entries else z3.BoolVal(False)
-        return self.fresh_bool("has_sym").t
+        # open dict: unknown in general, but it agrees with every entry already known (and with earlier reads of the same key)
+        reads = m.__dict__.setdefault("sym_reads", {})
+        tid = sym.t.get_id()
+        if tid in reads:
+            return reads[tid][0]
+        h = self.fresh_bool("has_sym").t
+        for k, (p, _) in m.entries.items():
+            self.assume(z3.Implies(sym.t == z3.StringVal(k), h == p))
+        reads[tid] = (h, (m.make_val("?") if m.make_val else VOpaque("dictval")))
+        return h
 
     def dict_get(self, d, key, node=None):
         """returns (present z3 Bool, value)"""
@@ -1328,8 +1339,15 @@ class Engine:
                 return z3.BoolVal(True), v
         if not m.open:
             return z3.BoolVal(False), NONE
-        p = self.fresh_bool("has_sym").t
-        return p, (m.make_val("?") if m.make_val else VOpaque("dictval"))
+        # unknown key of an open dict: one (presence, value) pair per key term, so repeated reads agree
+        reads = m.__dict__.setdefault("sym_reads", {})
+        tid = sym.t.get_id()
+        if tid not in reads:
+            p = self.fresh_bool("has_sym").t
+            for k, (pk, _) in m.entries.items():
+                self.assume(z3.Implies(sym.t == z3.StringVal(k), p == pk))
+            reads[tid] = (p, (m.make_val("?") if m.make_val else VOpaque("dictval")))
+        return reads[tid]
 
     def dict_set(self, d, key, val, node=None):
         m = self.state.dicts[d.did]
@@ -1344,6 +1362,7 @@ class Engine:
                 m.entries[k] = (z3.BoolVal(True), val)
                 return
         m.sym_entries = getattr(m, "sym_entries", []) + [(sym, val)]
+        m.__dict__.setdefault("sym_reads", {})[sym.t.get_id()] = (z3.BoolVal(True), val)
 
     # ---- subscripts
     def e_Subscript(self, node, fr):
